@@ -1,6 +1,7 @@
 package checks
 
 import (
+	"encoding/hex"
 	"bytes"
 	"context"
 	"crypto/sha256"
@@ -214,7 +215,11 @@ func c09Probe(r *simcore.Run, e *storeEnv, dst, what string, n uint64, exports m
 	}
 	var st *store.ImmuStore
 	var err error
-	pv, stack := r.Catch(func() { st, err = store.Open(dst, e.cfg.options()) })
+	// in half of the cases the only index is one whose keys are derived from the stored VALUE (as the
+	// SQL engine's indexes are); it does not exist in the copy, so it is built from the (altered) log.
+	// (An index with the empty prefix next to it would answer every lookup by prefix.)
+	mapped := r.Pct(50)
+	pv, stack := r.Catch(func() { st, err = store.Open(dst, e.cfg.options().WithMultiIndexing(mapped)) })
 	if pv != nil {
 		r.Violation("panic", "", "%sstore.Open panicked: %v\n%s", what, pv, stack)
 	}
@@ -223,9 +228,6 @@ func c09Probe(r *simcore.Run, e *storeEnv, dst, what string, n uint64, exports m
 		return // refusing to open is a detection
 	}
 	defer st.Close()
-	// a second index whose keys are derived from the stored VALUE (as the SQL engine's indexes are):
-	// it does not exist in the copy, so it is built from the (altered) log
-	mapped := r.Pct(50)
 	if mapped {
 		var ierr error
 		pv, stack := r.Catch(func() {
@@ -457,6 +459,7 @@ func c09Probe(r *simcore.Run, e *storeEnv, dst, what string, n uint64, exports m
 			}
 			snap.Close()
 		}
+		return
 	}
 	model, keys := e2ModelFromLedger(e, cn)
 	for _, k := range keys {
@@ -600,5 +603,6 @@ func c09ExportDiffers(got, want []byte, lt *ledTx) string {
 func c09Mapper(key, value []byte) ([]byte, error) {
 	out := append([]byte("m:"), key...)
 	out = append(out, '/')
-	return append(out, value[:min(len(value), 12)]...), nil
+	h := sha256.Sum256(value) // every bit of the value matters
+	return append(out, []byte(hex.EncodeToString(h[:8]))...), nil
 }
